@@ -703,7 +703,16 @@ fn gen_sel(g: &mut Xo, depth: usize, n: usize, cases: usize) -> Sel {
             let m = g.urange(1, 5);
             Sel::Dyn(
                 (0..m)
-                    .map(|_| (gen_sel(g, depth - 1, n, cases), if g.chance(1, 3) { 0 } else { g.urange(1, 5) }))
+                    .map(|_| {
+                        let w = match g.below(6) {
+                            0 | 1 => 0,
+                            // large usize weights (their sum stays far below usize::MAX): a weight that
+                            // is a multiple of 2^32 must not be mistaken for zero
+                            2 => *g.pick(&[1usize << 32, 3usize << 32, 1usize << 40, (1usize << 32) + 1, u32::MAX as usize + 1]),
+                            _ => g.urange(1, 5),
+                        };
+                        (gen_sel(g, depth - 1, n, cases), w)
+                    })
                     .collect(),
             )
         }
@@ -837,7 +846,7 @@ impl Check for C06 {
         vec![
             "an Err is accepted iff some member reachable with positive weight can legitimately report it for this population (which member is chosen depends on the stream); Ok is rejected only when every reachable member must fail".into(),
             "MissingTestCase may or may not strike when some individual has fewer results than the configured case count (depends on the filtering order)".into(),
-            "DynWeighted weights are kept small (usize overflow of the weight sum is outside the statement)".into(),
+            "DynWeighted weight sums stay far below usize::MAX (overflow of the usize sum is outside the statement); individual weights go up to 2^40".into(),
         ]
     }
 
